@@ -267,9 +267,9 @@ func genCfg() lm.GenConfig {
 // withKnown excludes the known finding's input class by construction (and counts
 // every suppressed draw) iff the finding is recorded as open and still reproduces.
 func withKnown(cfg lm.GenConfig) lm.GenConfig {
-	if knownExcluded() {
+	if knownActive(keyLogAppend) {
 		cfg.NoV1WrapperLogAppendTime = true
-		cfg.Excluded = func() { ev.Excluded(knownKey) }
+		cfg.Excluded = func() { ev.Excluded(keyLogAppend) }
 	}
 	return cfg
 }
@@ -291,10 +291,15 @@ func drawCall(t *rapid.T, l *lm.Log) call {
 	}
 	c.disableCRC = rapid.IntRange(0, 7).Draw(t, "disableCRC") == 0
 	c.hook = rapid.Bool().Draw(t, "hook")
-	c.aborted = l.Aborted
+	// the broker lists the aborted transactions that end at or after the fetch offset
+	c.aborted = l.AbortedFor(c.q.Offset)
+	if n := len(l.Aborted) - len(c.aborted); n > 0 {
+		ev.Class("aborted-entries-ending-before-the-fetch-offset-not-listed")
+	}
 	if !c.q.ReadCommitted && rapid.Bool().Draw(t, "noAbortedListWhenUncommitted") {
 		c.aborted = nil // what a broker sends for read_uncommitted
 	}
+	c.q.Aborted = c.aborted
 	return c
 }
 
@@ -306,9 +311,12 @@ func classify(l *lm.Log, c call) (nontrivial bool) {
 	if mixed {
 		ev.Class("mixed-formats-or-producers")
 	}
-	ooo := c.q.ReadCommitted && len(c.aborted) >= 2 && l.AbortedOutOfOrder()
+	ooo := c.q.ReadCommitted && len(c.aborted) >= 2 && lm.OutOfOrder(c.aborted)
 	if ooo {
 		ev.Class("aborted-list-out-of-order(read_committed)")
+		if lm.SameProducerOutOfOrder(c.aborted) {
+			ev.Class("aborted-list-one-producer-out-of-order(read_committed)")
+		}
 	}
 	if c.q.ReadCommitted {
 		ev.Class("read_committed")
@@ -332,7 +340,7 @@ func classify(l *lm.Log, c call) (nontrivial bool) {
 			ev.Class("batch:v2-" + b.Codec.String())
 			if b.Transactional {
 				ev.Class("batch:v2-transactional")
-				if c.q.ReadCommitted && l.BatchAborted(i) {
+				if c.q.ReadCommitted && l.BatchAborted(i, c.aborted) {
 					ev.Class("batch:v2-aborted-under-read_committed")
 				}
 			}
@@ -407,8 +415,9 @@ func checkLog(t *rapid.T, l *lm.Log, c call) {
 	// model self-consistency: the declarative abort rule must agree with what the
 	// generator knows about each transaction (a disagreement is a harness bug)
 	for i := range l.Batches {
-		if b := &l.Batches[i]; b.Format == lm.V2 && b.Transactional && !b.Control && l.BatchAborted(i) != b.TxnAborted {
-			t.Fatalf("VERIF-INFRA: model inconsistency: batch %d declarative aborted=%v, generator says %v\n%s", i, l.BatchAborted(i), b.TxnAborted, l.Describe())
+		if b := &l.Batches[i]; b.Format == lm.V2 && b.Transactional && !b.Control && b.Last() >= c.q.Offset && c.q.ReadCommitted &&
+			l.BatchAborted(i, c.aborted) != b.TxnAborted {
+			t.Fatalf("VERIF-INFRA: model inconsistency: batch %d declarative aborted=%v, generator says %v\n%s", i, l.BatchAborted(i, c.aborted), b.TxnAborted, l.Describe())
 		}
 	}
 	in, ends := l.Encode()
@@ -625,11 +634,19 @@ func TestErrorCode(t *testing.T) {
 
 var boundary32 = []uint32{0, 1, 0x7fffffff, 0x80000000, 0xffffffff, 0xfffffff4, 0x7ffffff4, 0x7ffffff3, 0xfffffffe, 17, 49, 61}
 
+// hostileVarints: zigzag varints a record section must never contain where a length is
+// expected: overlong (continuation bit on the 5th byte), overflowing 32 bits,
+// negative (-1, -2, MinInt32), and huge positive values.
+var hostileVarints = [][]byte{
+	{0x80, 0x80, 0x80, 0x80, 0x80}, {0xff, 0xff, 0xff, 0xff, 0xff}, {0xff, 0xff, 0xff, 0xff, 0x7f}, {0x80, 0x80, 0x80, 0x80, 0x10},
+	{0x01}, {0x03}, {0xff, 0xff, 0xff, 0xff, 0x0f}, {0xfe, 0xff, 0xff, 0xff, 0x0f}, {0xfe, 0xff, 0xff, 0xff, 0x07}, {0x80, 0x80, 0x80, 0x80, 0x08},
+}
+
 func mutate(t *rapid.T, in []byte, ends []int) []byte {
 	out := bytes.Clone(in)
 	n := rapid.IntRange(1, 4).Draw(t, "nMut")
 	for i := 0; i < n && len(out) > 0; i++ {
-		switch rapid.IntRange(0, 6).Draw(t, "mutKind") {
+		switch rapid.IntRange(0, 7).Draw(t, "mutKind") {
 		case 0: // bit flip anywhere
 			p := rapid.IntRange(0, len(out)-1).Draw(t, "flipAt")
 			out[p] ^= 1 << rapid.IntRange(0, 7).Draw(t, "flipBit")
@@ -664,6 +681,10 @@ func mutate(t *rapid.T, in []byte, ends []int) []byte {
 			p := rapid.IntRange(0, len(out)-1).Draw(t, "delAt")
 			q := min(len(out), p+rapid.IntRange(1, 8).Draw(t, "delLen"))
 			out = append(out[:p:p], out[q:]...)
+		case 6: // plant a hostile varint (overlong, overflowing, negative, huge)
+			v := rapid.SampledFrom(hostileVarints).Draw(t, "varint")
+			p := rapid.IntRange(0, len(out)-1).Draw(t, "varintAt")
+			out = append(out[:p:p], append(bytes.Clone(v), out[min(len(out), p+len(v)):]...)...)
 		default: // set a byte
 			p := rapid.IntRange(0, len(out)-1).Draw(t, "setAt")
 			out[p] = rapid.SampledFrom([]byte{0, 1, 0x7f, 0x80, 0xff}).Draw(t, "setVal")
@@ -684,14 +705,30 @@ func genAborted(t *rapid.T) []lm.Aborted {
 	return as
 }
 
+// nearInt64Limit reports whether offset arithmetic on this input could reach the
+// int64 limits (a record at offset MaxInt64 makes "offset + 1" unrepresentable; no
+// log can hold one, and nothing but "no panic" is asserted then). Conservative scan:
+// any 8-byte window starting 7fffffff.. or 80000000.., i.e. any stored offset within
+// 2^32 of a limit, exempts the input.
+func nearInt64Limit(in []byte) bool {
+	return bytes.Contains(in, []byte{0x7f, 0xff, 0xff, 0xff}) || bytes.Contains(in, []byte{0x80, 0x00, 0x00, 0x00})
+}
+
 // hostileCheck runs one arbitrary input and applies what must hold on every input.
-func hostileCheck(t fataler, c call) {
+// ordering: also assert that offsets are >= the requested one and increase.
+func hostileCheck(t fataler, c call, ordering bool) {
 	o := run(c)
+	if isVarintPanic(&o) && knownActive(keyVarint) {
+		ev.Excluded(keyVarint)
+		return
+	}
 	if o.panicked != nil {
 		report(t, "panic on hostile input", nil, c, &o, nil, 0)
 	}
-	if d := weakDiff(&o, c.q.Offset); d != "" {
-		report(t, "hostile input: "+d, nil, c, &o, nil, 0)
+	if ordering {
+		if d := weakDiff(&o, c.q.Offset); d != "" {
+			report(t, "hostile input: "+d, nil, c, &o, nil, 0)
+		}
 	}
 	// Disabling CRC validation only removes a check: input that validates must
 	// give the identical result without validation.
@@ -725,6 +762,7 @@ func TestHostile(t *testing.T) {
 			hook:       rapid.Bool().Draw(t, "hook"),
 		}
 		nontrivial := false
+		nearLimit := false
 		switch kind := rapid.IntRange(0, 9).Draw(t, "hostileKind"); {
 		case kind == 0:
 			c.in = rapid.SliceOfN(rapid.Byte(), 0, 120).Draw(t, "bytes")
@@ -747,6 +785,46 @@ func TestHostile(t *testing.T) {
 			c.q.Offset = rapid.Int64Range(0, 300).Draw(t, "offset")
 			c.aborted = genAborted(t)
 			ev.Class("hostile:header-over-arbitrary-bytes")
+		case kind <= 4:
+			// valid framing, length and CRC around a hostile record section: the deep
+			// parsers are reached with CRC validation on
+			l := gen.Draw(t, "log")
+			c.q.Offset = lm.InterestingOffset(t, l) // drawn before the model is damaged
+			k := rapid.IntRange(0, len(l.Batches)-1).Draw(t, "craftBatch")
+			b := &l.Batches[k]
+			if raw := b.EncodedRecords(); raw != nil {
+				switch rapid.IntRange(0, 3).Draw(t, "craftKind") {
+				case 0:
+					b.RawRecords = rapid.SliceOfN(rapid.Byte(), 0, 60).Draw(t, "rawRecords")
+					if rapid.Bool().Draw(t, "leadingVarint") {
+						b.RawRecords = append(bytes.Clone(rapid.SampledFrom(hostileVarints).Draw(t, "varint")), b.RawRecords...)
+					}
+				case 1, 2:
+					b.RawRecords = mutate(t, raw, []int{len(raw)})
+				default:
+					b.RawRecords = raw
+				}
+				if b.RawRecords == nil {
+					b.RawRecords = []byte{}
+				}
+				nearLimit = nearInt64Limit(b.RawRecords)
+				if b.Format == lm.V2 {
+					if rapid.Bool().Draw(t, "craftCount") {
+						n := rapid.SampledFrom([]int32{-1, 0, 1, 2, int32(len(b.Records)) + 1, int32(len(b.Records)) - 1, 1000, math.MaxInt32, math.MinInt32}).Draw(t, "count")
+						b.CountOverride = &n
+					}
+					if rapid.IntRange(0, 3).Draw(t, "craftLOD") == 0 {
+						b.LastOffsetDelta = rapid.SampledFrom([]int32{-1, 0, math.MaxInt32, math.MinInt32, 5}).Draw(t, "lod")
+					}
+					if rapid.IntRange(0, 5).Draw(t, "craftBase") == 0 {
+						b.BaseOffset = rapid.SampledFrom([]int64{-1, math.MaxInt64, math.MaxInt64 - 1, math.MinInt64, 0}).Draw(t, "base")
+					}
+				}
+			}
+			c.in, _ = l.Encode()
+			c.aborted = l.Aborted
+			nontrivial = true
+			ev.Class("hostile:valid-framing-and-crc-around-hostile-record-section")
 		default:
 			l := gen.Draw(t, "log")
 			in, ends := l.Encode()
@@ -760,7 +838,15 @@ func TestHostile(t *testing.T) {
 			ev.Class("hostile:mutated-valid-response")
 		}
 		ev.Case("hostile|"+digest(c.in, c), nontrivial)
-		hostileCheck(t, c)
+		// Compressed payloads hide their content from the scan: after a mutation
+		// they almost never decompress, and a crafted section is scanned before it
+		// is compressed (see below), so the scan of the final bytes is enough for
+		// mutated inputs and the crafted flag covers crafted ones.
+		ordering := !nearLimit && !nearInt64Limit(c.in)
+		if !ordering {
+			ev.Class("hostile:ordering-not-asserted(offsets-near-int64-limit)")
+		}
+		hostileCheck(t, c, ordering)
 	})
 }
 
@@ -792,9 +878,41 @@ func FuzzProcess(f *testing.F) {
 		}
 	}
 	f.Add([]byte{}, int64(0), byte(0), []byte{})
+	for seed := 1; seed <= 20; seed++ { // record sections for the framing modes
+		l := gen.Example(seed)
+		for i := range l.Batches {
+			if raw := l.Batches[i].EncodedRecords(); raw != nil {
+				mode := byte(8)
+				if l.Batches[i].Format != lm.V2 {
+					mode = 16
+				}
+				f.Add(raw, l.Batches[i].First(), mode|byte(len(l.Batches[i].Records))<<5, []byte{})
+			}
+		}
+	}
 	f.Fuzz(func(t *testing.T, in []byte, offset int64, flags byte, ab []byte) {
+		fuzzOne(t, in, offset, flags, ab)
+	})
+}
+
+func fuzzOne(t *testing.T, in []byte, offset int64, flags byte, ab []byte) {
+	{
 		if offset < 0 {
 			offset = -(offset + 1)
+		}
+		// flag bits 3/4: treat the input as a record section and give it valid
+		// framing, length and CRC (v2 batch / v1 gzip wrapper), so that the deep
+		// parsers are reached with CRC validation on
+		switch {
+		case flags&8 != 0:
+			n := int32(flags >> 5)
+			b := lm.Batch{Format: lm.V2, Marker: lm.NoMarker, BaseOffset: offset, LastOffsetDelta: n, ProducerID: int64(flags >> 6), Transactional: flags&1 != 0,
+				RawRecords: append([]byte{}, in...), CountOverride: &n}
+			in = b.Encode()
+		case flags&16 != 0:
+			b := lm.Batch{Format: lm.V1, Codec: lm.Gzip, Marker: lm.NoMarker, Inner: lm.InnerRelative, Records: []lm.Record{{Offset: offset + int64(flags>>5)}},
+				RawRecords: append([]byte{}, in...)}
+			in = b.Encode()
 		}
 		c := call{
 			in:         in,
@@ -802,8 +920,9 @@ func FuzzProcess(f *testing.F) {
 			disableCRC: flags&4 != 0,
 			aborted:    abortedFromBytes(ab),
 		}
-		hostileCheck(t, c)
-	})
+		// no ordering assertions here: the fuzzer is fond of offsets at the int64 limits
+		hostileCheck(t, c, false)
+	}
 }
 
 // TestFuzzSeedsAreValid keeps the fuzz seeds honest: every seed response is a valid
